@@ -196,6 +196,7 @@ package file
 //@   ensures result2 == nil ==> off(result0) == off(content) + len(prefix) && len(result0) == nl - len(prefix)
 //@   ensures result2 == nil ==> off(result1) == off(content) + nl + 1 && len(result1) == len(content) - nl - 1
 //@   ensures result2 != nil ==> len(content) == 0 || nl < 0 || len(prefix) > nl || content[:len(prefix)] != prefix
+//@   ensures result2 == nil ==> len(result1) < len(content)
 //@   callee IndexByte(s, c) (r)
 //@     set nl := r
 //@   callee safeSubstring(s, n)
@@ -208,6 +209,7 @@ package file
 //@ func (*offsetDB).parseOptionalLine
 //@   pure
 //@   ensures !(len(content) >= len(prefix) && content[:len(prefix)] == prefix) ==> result2 == nil && len(result0) == 0 && off(result1) == off(content) && len(result1) == len(content)
+//@   ensures result2 == nil ==> len(result1) <= len(content)
 
 // parseStreams: a stream line written as "    <name>: <number>" is split at the
 // writer's separator whatever characters the name contains (':' and ": "
@@ -224,6 +226,8 @@ package file
 //@   cover at "streams[stream] = offset" len(stream) == 4 && stream[1] == ':' && stream[2] == ' '
 //@   ghost bad bool = false
 //@   ensures result1 != nil ==> bad || has || linePos < 5 || line[:4] != "    " || pos < 0 || pos + 2 > len(line)
+//@   ensures result1 == nil ==> len(result0) < len(content)
+//@   loop 1 invariant len(content) < old(len(content))
 //@   callee parseLine(c, p) (v, rest, err)
 //@     requires true
 //@     set bad := bad || err != nil
@@ -236,7 +240,7 @@ package file
 
 //@ monitor Job.mu
 //@   self j
-//@   protects offsets
+//@   protects offsets, isDone, isVirgin
 
 // PassEvent: after a restart an event is dropped as already delivered only if its
 // stream has a saved offset and the event's offset is not beyond it.
@@ -292,6 +296,7 @@ package file
 //@   assert at "job.seek(0, io.SeekStart" job.ignoreEventsLE == job.lastEventSeq
 //@   callee seek(off, whence, hint)
 //@     requires off == 0 && whence == 0
+//@     requires held(job.mu)
 //@     preserves Job
 //@     set nseek := nseek + 1
 //@   callee Set(name, v)
@@ -373,6 +378,11 @@ package file
 //@   callee initJobOffset(op, j)
 //@     requires started ==> op == offsetsOpReset
 //@     requires !started ==> op == jp.config.OffsetsOp_
+//@   callee mapupdate:jobs(k, v)
+//@     requires v != nil
+
+// (The table invariant the lookups in refreshFile / maintenanceJobs assume - a stored
+// job is never nil - is proved here, at the only store.)
 
 // ---------------------------------------------------------------------------
 // C06 / C03: maintenanceJob releases and reopens the descriptor of a finished job.
@@ -380,21 +390,26 @@ package file
 // position is *behind* the bytes kept in job.tail.  Whatever branch is taken, a job
 // that is kept keeps its tail, and the reopened descriptor is positioned at exactly
 // the offset the old one had (first seek: query, second seek: restore).
+// A job is dropped (deleteJobAndUnlock) only after the position was queried and found
+// at the end of the file (size == position, or a compressed job): whatever was written
+// to a file that has been removed in the meantime is read through the still open
+// descriptor first (the resume branch) - "no line of a deleted or rotated file is lost".
 
 //@ func (*jobProvider).maintenanceJob
 //@   option allow-exit yes
 //@   ghost nseek int = 0
 //@   ghost cur int = 0
-//@   requires job != nil
 //@   ensures ref(job.tail) == old(ref(job.tail))
 //@   ensures off(job.tail) == old(off(job.tail))
 //@   ensures len(job.tail) == old(len(job.tail))
 //@   ghost reopened bool = false
 //@   ensures result == maintenanceResultNoop && reopened ==> nseek == 2
+//@   ghost sz int = 0
 //@   callee seek(off, whence, hint) (r)
 //@     requires nseek == 0 ==> off == 0 && whence == 1
 //@     requires nseek == 1 ==> off == cur && whence == 0
 //@     requires nseek <= 1
+//@     requires held(job.mu)
 //@     pure
 //@     set cur := ite(nseek == 0, r, cur)
 //@     set nseek := nseek + 1
@@ -409,6 +424,7 @@ package file
 //@     pure
 //@   callee Size() (n)
 //@     pure
+//@     set sz := n
 //@   callee Name() (n)
 //@     pure
 //@   callee Base(p) (r)
@@ -424,9 +440,9 @@ package file
 //@   callee getTimestamp() (t)
 //@     pure
 //@   callee tryResumeJobAndUnlock(j, f)
-//@     pure
+//@     requires j == job
 //@   callee deleteJobAndUnlock(j)
-//@     pure
+//@     requires j == job && nseek == 1 && (sz == cur || job.isCompressed)
 //@   callee Warnf(f, a)
 //@     pure
 //@   callee Infof(f, a)
@@ -453,6 +469,7 @@ package file
 //@   ghost nu int = 0
 //@   ensures result1 != nil ==> bad || has
 //@   ensures result1 == nil ==> nu == 2
+//@   ensures result1 == nil ==> len(result0) < len(content)
 //@   callee parseLine(c, p) (v, rest, err)
 //@     requires true
 //@     set bad := bad || err != nil
@@ -511,3 +528,405 @@ package file
 //@     pure
 //@   callee Errorf(f, a) (e)
 //@     pure
+
+// ---------------------------------------------------------------------------
+// C03 / C06: (*Job).seek.  curOffset is the cached descriptor position: it is what the
+// worker takes as the start offset of a pass and what every line offset is counted
+// from.  After seek it IS the position the descriptor reported for exactly the
+// requested (offset, whence), one Seek per call; a compressed job has no position (0,
+// the descriptor is not touched).  Nothing else of the job changes.
+// (Lock discipline: the callers that own a parked job call it under job.mu - stated as
+// call-site oracles in truncateJob and maintenanceJob.  It is NOT a precondition here:
+// checkFileWasTruncated calls seek without the lock - the open C06 finding "truncation
+// check mid pass" - and a precondition that can never be proved there would make every
+// clause behind that call vacuous.)
+
+//@ func (*Job).seek
+//@   ghost pos int = 0
+//@   ghost nseek int = 0
+//@   modifies j.curOffset
+//@   ensures j.curOffset == result
+//@   ensures !j.isCompressed ==> nseek == 1 && result == pos
+//@   ensures j.isCompressed ==> nseek == 0 && result == 0
+//@   callee Seek(o, w) (p, err)
+//@     requires o == offset && w == whence && nseek == 0
+//@     pure
+//@     set pos := p
+//@     set nseek := nseek + 1
+//@   callee Infof(f, a)
+//@     pure
+//@   callee Error() (s)
+//@     pure
+
+// ---------------------------------------------------------------------------
+// C03 / C06: hand-over of a job between the provider and the workers.
+//
+// isDone (under job.mu) says who owns the job: false - it is in jobsChan or with a
+// worker; true - it is parked at EOF and belongs to whoever holds job.mu.  A parked
+// job keeps its read position, its held-back tail and its committed offsets: that is
+// what "appended lines are read from where reading stopped" rests on.
+//
+// tryResumeJobAndUnlock (job.mu held on entry, released on every path): a parked job
+// is handed to the workers exactly once - marked not done, with the file name of the
+// notification, counted out of jobsDone, and sent only after job.mu was released (a
+// send on the full channel must not block commit / save behind job.mu); a job that
+// is not parked is not touched and not sent (two workers would read one descriptor).
+// Nothing but filename / isDone / the counter changes: curOffset, tail, offsets stay.
+
+//@ func (*jobProvider).tryResumeJobAndUnlock
+//@   option allow-exit yes
+//@   ghost nsend int = 0
+//@   ghost wasDone bool = job.isDone
+//@   releases job.mu
+//@   requires job != nil
+//@   modifies job.filename, job.isDone, jp.jobsDone.v
+//@   ensures !held(job.mu)
+//@   ensures nsend == ite(wasDone, 1, 0)
+//@   ensures wasDone ==> job.filename == filename && !job.isDone && jp.jobsDone.v >= 0
+//@   ensures wasDone && old(jp.jobsDone.v) > -2147483648 ==> jp.jobsDone.v == old(jp.jobsDone.v) - 1
+//@   ensures !wasDone ==> job.filename == old(job.filename) && !job.isDone && jp.jobsDone.v == old(jp.jobsDone.v)
+//@   setat "jp.jobsChan <- job" nsend := nsend + 1
+//@   callee chansend:jobsChan(v)
+//@     requires v == job && wasDone && !v.isDone && !held(job.mu)
+//@   callee continueJob(j)
+//@     requires j == job
+//@     requires wasDone
+//@     requires !j.isDone
+//@     requires !held(job.mu)
+//@     set nsend := nsend + 1
+//@   callee Debugf(f, a)
+//@     pure
+
+// continueJob is the bare send (the worker's hand-back; its oracle is the job invariant
+// at the call site in work).
+
+//@ func (*jobProvider).continueJob
+//@   pure
+
+// doneJob: the worker parks a job at EOF.  The job becomes done and is no longer a
+// virgin, jobsDone counts it exactly once; both locks are released on return.  The
+// read position, the tail and the offsets are not touched.
+
+//@ func (*jobProvider).doneJob
+//@   option allow-exit yes
+//@   ghost jl bool = false
+//@   ghost wasDone bool = false
+//@   requires job != nil && !held(job.mu)
+//@   modifies job.isDone, job.isVirgin, jp.jobsDone.v
+//@   ensures !held(job.mu) && !jl
+//@   ensures job.isDone && !job.isVirgin
+//@   ensures old(jp.jobsDone.v) < 2147483647 ==> jp.jobsDone.v == old(jp.jobsDone.v) + 1
+//@   callee RWMutex.Lock()
+//@     requires !jl
+//@     pure
+//@     set jl := true
+//@   callee RWMutex.Unlock()
+//@     requires jl
+//@     pure
+//@     set jl := false
+//@   callee Set(v)
+//@     pure
+
+// deleteJobAndUnlock (job.mu held on entry, released on every path): only a parked
+// job (done: the worker reached EOF, everything written so far was read) is dropped;
+// the entry removed from the table is the job's own source id, removed once, under
+// jobsMu; jobsDone stops counting it; both locks are free on return and the job
+// itself is not changed.
+
+//@ func (*jobProvider).deleteJobAndUnlock
+//@   option allow-exit yes
+//@   ghost jl bool = false
+//@   ghost ndel int = 0
+//@   ghost wasDone bool = job.isDone
+//@   releases job.mu
+//@   requires job != nil
+//@   modifies jp.jobsDone.v
+//@   ensures !held(job.mu) && !jl && ndel == 1 && wasDone
+//@   ensures old(jp.jobsDone.v) > -2147483648 ==> jp.jobsDone.v == old(jp.jobsDone.v) - 1
+//@   setat "delete(jp.jobs, sourceID)" ndel := ndel + 1
+//@   assert at "delete(jp.jobs, sourceID)" jl && ndel == 1 && wasDone
+//@   assert at "delete(jp.jobs, sourceID)" sourceID == job.sourceID
+//@   callee RWMutex.Lock()
+//@     requires !jl
+//@     pure
+//@     set jl := true
+//@   callee RWMutex.Unlock()
+//@     requires jl
+//@     pure
+//@     set jl := false
+//@   callee Infof(f, a)
+//@     pure
+
+// ---------------------------------------------------------------------------
+// C03: truncation seen by the watcher (write notification).  The position is only
+// queried (offset 0 from the current position: the descriptor is not moved) and the
+// job is truncated - once - exactly when that position is beyond the reported size.
+// (Open C06 finding, replay/C06/zz_open_truncation_check_mid_pass_test.go: the query
+// runs on the watcher goroutine without job.mu and overwrites curOffset while a worker
+// may be in the middle of a pass.  No clause here states the lock - see seek.)
+
+//@ func (*jobProvider).checkFileWasTruncated
+//@   ghost pos int = 0
+//@   ghost nseek int = 0
+//@   ghost ntrunc int = 0
+//@   requires job != nil && !held(job.mu)
+//@   ensures nseek == 1 && ntrunc == ite(pos > size, 1, 0)
+//@   callee seek(off, whence, hint) (r)
+//@     requires off == 0 && whence == 1 && nseek == 0 && ntrunc == 0
+//@     set pos := r
+//@     set nseek := nseek + 1
+//@   callee truncateJob(j)
+//@     requires j == job && ntrunc == 0 && !held(job.mu)
+//@     set ntrunc := ntrunc + 1
+
+// ---------------------------------------------------------------------------
+// C03: refreshFile - "a renamed file keeps its job, a new inode starts a new one".
+// The job is looked up by the id sourceIDByStat gives for exactly this stat and
+// symlink.  Known id: no second descriptor is opened and no job added; the existing
+// job is resumed once under its own lock with the name of the notification (its read
+// position and offsets are tryResume's frame), after - for a write notification only -
+// one truncation check against the size of this stat.  Unknown id: the file is opened
+// under the notified name and, if that succeeded, handed to addJob once with the same
+// stat / name / symlink; nothing is resumed.
+
+//@ func (*jobProvider).refreshFile
+//@   option allow-exit yes
+//@   ghost gid int = 0
+//@   ghost gkey int = -1
+//@   ghost ghas bool = false
+//@   ghost gsize int = 0
+//@   ghost nresume int = 0
+//@   ghost nadd int = 0
+//@   ghost ncheck int = 0
+//@   ghost nopen int = 0
+//@   ghost openok bool = false
+//@   ghost rl int = 0
+//@   ensures gkey == gid && rl == 0
+//@   ensures ghas ==> nresume == 1 && nadd == 0 && nopen == 0 && ncheck == ite(isWrite, 1, 0)
+//@   ensures !ghas ==> nresume == 0 && ncheck == 0 && nopen == 1 && nadd == ite(openok, 1, 0)
+//@   callee sourceIDByStat(s, l) (r)
+//@     requires s == stat && l == symlink
+//@     set gid := r
+//@   callee maplookup:jobs(k) (v, ok)
+//@     ensures ok ==> v != nil
+//@     set gkey := k
+//@     set ghas := ok
+//@   callee RWMutex.RLock()
+//@     pure
+//@     set rl := rl + 1
+//@   callee RWMutex.RUnlock()
+//@     requires rl == 1
+//@     pure
+//@     set rl := rl - 1
+//@   callee Size() (n)
+//@     pure
+//@     set gsize := n
+//@   callee checkFileWasTruncated(j, sz)
+//@     requires ghas && isWrite && j == job && sz == gsize && ncheck == 0 && nresume == 0
+//@     set ncheck := ncheck + 1
+//@   callee tryResumeJobAndUnlock(j, f)
+//@     requires ghas && j == job && f == filename && nresume == 0
+//@     set nresume := nresume + 1
+//@   callee Open(n) (f, err)
+//@     requires !ghas && n == filename && nopen == 0
+//@     pure
+//@     set openok := err == nil
+//@     set nopen := nopen + 1
+//@   callee addJob(f, st, fn, sl)
+//@     requires !ghas && openok && nadd == 0 && st == stat && fn == filename && sl == symlink
+//@     set nadd := nadd + 1
+//@   callee Warnf(f, a)
+//@     pure
+//@   callee Inc()
+//@     pure
+//@   callee Error() (s)
+//@     pure
+
+// ---------------------------------------------------------------------------
+// C07: snapshotJobs (called by save with offsetDB.mu held).  The list of jobs to be
+// written is rebuilt from scratch on every save (no job of an earlier save survives in
+// it), it is collected while the table's read lock is held - one job appended per
+// table entry, the entry's own job - and the lock is released before the list is
+// used.  (Each job's offsets are then read under that job's lock: monitor Job.mu.)
+
+//@ func (*offsetDB).snapshotJobs
+//@   ghost rl int = 0
+//@   ghost nadd int = 0
+//@   requires held(o.mu)
+//@   modifies o.jobsSnapshot, o.jobsSnapshot[:cap(o.jobsSnapshot)]
+//@   ensures held(o.mu) && rl == 0
+//@   ensures len(result) == nadd && len(o.jobsSnapshot) == nadd && ref(result) == ref(o.jobsSnapshot) && off(result) == off(o.jobsSnapshot)
+//@   loop 1 invariant held(o.mu) && rl == 1 && len(o.jobsSnapshot) == nadd && nadd >= 0
+//@   loop 1 invariant freshin(o.jobsSnapshot) || (ref(o.jobsSnapshot) == old(ref(o.jobsSnapshot)) && off(o.jobsSnapshot) == old(off(o.jobsSnapshot)) && cap(o.jobsSnapshot) == old(cap(o.jobsSnapshot)))
+//@   loop 1 iter-ensures nadd >= 1 && o.jobsSnapshot[nadd-1] == job
+//@   setat "o.jobsSnapshot = append(o.jobsSnapshot, job)" nadd := nadd + 1
+//@   callee RWMutex.RLock()
+//@     requires rl == 0 && len(o.jobsSnapshot) == 0
+//@     pure
+//@     set rl := rl + 1
+//@   callee RWMutex.RUnlock()
+//@     requires rl == 1
+//@     pure
+//@     set rl := rl - 1
+
+// ---------------------------------------------------------------------------
+// C07 / C03: parse - the whole offsets file.  Entries are parsed one after the other,
+// each parseOne gets exactly what the previous one left and the one table being
+// filled; the result is that table.  An error is returned exactly when some entry was
+// rejected (no entry is skipped silently, no error is lost), success means the whole
+// content was consumed (nothing behind the last parsed entry is dropped), and every
+// round consumes at least one byte (load terminates on every file).
+
+//@ func (*offsetDB).parse
+//@   ghost bad bool = false
+//@   ghost glen int = 0
+//@   ghost grest int = 0
+//@   ghost niter int = 0
+//@   ensures (result1 != nil) == bad
+//@   ensures result1 == nil ==> result0 == offsets
+//@   ensures result1 == nil ==> (niter == 0 && len(content) == 0) || (niter > 0 && grest == 0)
+//@   loop 1 invariant !bad && niter >= 0 && (niter == 0 ==> len(content) == old(len(content))) && (niter > 0 ==> len(content) == grest)
+//@   loop 1 iter-ensures len(content) < glen
+//@   callee parseOne(c, offs) (rest, err)
+//@     requires c == content && len(c) > 0 && offs == offsets && !bad
+//@     set bad := err != nil
+//@     set glen := len(c)
+//@     set grest := len(rest)
+//@     set niter := niter + 1
+//@   callee Errorf(f, a) (e)
+//@     pure
+//@     ensures e != nil
+
+// ---------------------------------------------------------------------------
+// C03 (restart): initEofInfo restores the "last read" clock of a job from the loaded
+// offsets - looked up under the job's own source id; it touches nothing else of the
+// job (not the read position, not the offsets, not the done flag).  With an entry the
+// restored time stamp is the saved one and the restored offset is not beyond any
+// saved stream offset the scan has seen; without an entry nothing is written at all.
+
+//@ func (*eofInfo).setUnixNanoTimestamp
+//@   modifies e.timestamp.v
+//@   ensures e.timestamp.v == nanos
+
+//@ func (*eofInfo).setOffset
+//@   modifies e.offset.v
+//@   ensures e.offset.v == offset
+
+//@ func (*jobProvider).initEofInfo
+//@   ghost gkey int = -1
+//@   ghost ghas bool = false
+//@   ghost gts int = 0
+//@   requires job != nil
+//@   modifies job.eofReadInfo
+//@   ensures gkey == job.sourceID
+//@   ensures !ghas ==> job.eofReadInfo.timestamp.v == old(job.eofReadInfo.timestamp.v) && job.eofReadInfo.offset.v == old(job.eofReadInfo.offset.v)
+//@   ensures ghas ==> job.eofReadInfo.timestamp.v == gts && job.eofReadInfo.offset.v == minOffset
+//@   loop 1 invariant ghas
+//@   loop 1 iter-ensures minOffset <= offset
+//@   callee maplookup:loadedOffsets(k) (v, ok)
+//@     ensures ok ==> v != nil
+//@     set gkey := k
+//@     set ghas := ok
+//@     set gts := v.lastReadTimestamp
+
+// ---------------------------------------------------------------------------
+// C03: maintenanceJobs - the fallback that notices appended lines when no notification
+// arrives.  The jobs are copied out of the table under its read lock (one list entry
+// per table entry, that entry's job), the lock is released before any job is looked at
+// (maintenanceJob takes job.mu and may take the table's write lock to delete), and
+// then every listed job gets exactly one maintenanceJob, in list order, none skipped.
+
+//@ func (*jobProvider).maintenanceJobs
+//@   option allow-exit yes
+//@   ghost rl int = 0
+//@   ghost nadd int = 0
+//@   ghost ncall int = 0
+//@   ensures rl == 0 && ncall == nadd && ncall == len(jobs)
+//@   loop 1 invariant rl == 1 && ncall == 0 && len(jobs) == nadd && nadd >= 0
+//@   loop 1 iter-ensures nadd >= 1 && jobs[nadd-1] == job
+//@   loop 2 invariant rl == 0 && len(jobs) == nadd && ncall == rangeindex + 1 && ncall <= len(jobs)
+//@   setat "jobs = append(jobs, job)" nadd := nadd + 1
+//@   callee RWMutex.RLock()
+//@     requires rl == 0
+//@     pure
+//@     set rl := rl + 1
+//@   callee RWMutex.RUnlock()
+//@     requires rl == 1
+//@     pure
+//@     set rl := rl - 1
+//@   callee maintenanceJob(j) (r)
+//@     requires rl == 0 && ncall < len(jobs) && j == jobs[ncall]
+//@     preserves jobProvider
+//@     set ncall := ncall + 1
+//@   callee Infof(f, a)
+//@     pure
+
+// ---------------------------------------------------------------------------
+// C03 / C07 (async persistence): saveOffsetsCyclic.  In every round that does not stop
+// the saver: if the commit counter moved since the last save, the offsets of this
+// provider's own table are saved (exactly one save, with jp.jobs / jp.jobsMu), and the
+// counter value that save stands for is remembered; if it did not move nothing is
+// written; every round has exactly one pause of the configured length.
+
+//@ func (*jobProvider).saveOffsetsCyclic
+//@   ghost nload int = 0
+//@   ghost nmoved int = 0
+//@   ghost nsave int = 0
+//@   ghost nsleep int = 0
+//@   ghost seen int = 0
+//@   ghost moved bool = false
+//@   loop 1 invariant nsleep == nload && nsave == nmoved && lastCommitted == seen
+//@   callee Load() (r)
+//@     pure
+//@     set seen := r
+//@     set moved := r != lastCommitted
+//@     set nload := nload + 1
+//@     set nmoved := nmoved + ite(r != lastCommitted, 1, 0)
+//@   callee save(jobs, mu)
+//@     requires moved && nsave == nmoved - 1 && jobs == jp.jobs && mu == jp.jobsMu
+//@     preserves jobProvider
+//@     set nsave := nsave + 1
+//@   callee Sleep(d)
+//@     requires d == duration
+//@     pure
+//@     set nsleep := nsleep + 1
+
+// ---------------------------------------------------------------------------
+// C03 / C06 (which reader a job gets): getMimeType.  The type decides isCompressed -
+// whether offsets are file positions (plain) or positions in the decompressed stream
+// (lz4).  It is a function of the lower-cased extension of this very name only: what
+// the system's table says for it, else the plugin's own table (".lz4"), else
+// "application/octet-stream"; it is never empty (assumed of the literal table
+// customMimeTypes: its values are not empty).
+
+//@ func getMimeType
+//@   pure
+//@   ghost gext seq = ""
+//@   ghost gsys seq = ""
+//@   ghost gcust seq = ""
+//@   ghost gkey seq = ""
+//@   ghost gcok bool = false
+//@   ghost nlow int = 0
+//@   ensures len(result) > 0
+//@   ensures len(gsys) > 0 ==> result == gsys
+//@   ensures len(gsys) == 0 && gcok ==> result == gcust
+//@   ensures len(gsys) == 0 && !gcok ==> result == "application/octet-stream"
+//@   ensures nlow == 1
+//@   ensures len(gsys) == 0 ==> gkey == ext
+//@   callee Ext(p) (r)
+//@     requires p == filename
+//@     pure
+//@     set gext := r
+//@   callee ToLower(s) (r)
+//@     requires s == gext && nlow == 0
+//@     pure
+//@     set nlow := nlow + 1
+//@   callee TypeByExtension(e) (r)
+//@     requires e == ext && nlow == 1
+//@     pure
+//@     set gsys := r
+//@   callee maplookup:customMimeTypes(k) (v, ok)
+//@     ensures ok ==> len(v) > 0
+//@     set gcust := v
+//@     set gkey := k
+//@     set gcok := ok
